@@ -721,6 +721,11 @@ class Repo:
                     return bytes(args[0])
                 if fn.id == "abs" and len(args) == 1:
                     return abs(args[0])
+                if fn.id in ("any", "all") and len(args) == 1 and isinstance(args[0], (list, tuple, set, range)) and not kw:
+                    return (any if fn.id == "any" else all)(args[0])
+                if fn.id == "sum" and len(args) == 1 and isinstance(args[0], (list, tuple, range)) and not kw \
+                        and all(isinstance(x, int) for x in args[0]):
+                    return sum(args[0])
             elif r[0] == "fn":
                 return self._fold_repo_call(r[1], args, kw)
             elif r[0] == "ext":
